@@ -162,3 +162,48 @@ Proof.
   exact (Hrep cid (q_org q) (r_tx (o_reply out)) q0 r0 Htx Hin Hrx).
 Qed.
 End EraTx.
+
+From ST Require Import Proofs.NtpTimeProofs Proofs.TssProofs Proofs.TssInv Proofs.TssRun.
+(* an exchange for which no reply goes out: the listener reports the transmit time handleRequest set
+   (updateTXTimestamp with the unchanged time), and the exchange is not on record afterwards *)
+Lemma noreply_not_on_record k c s cid q rxt now victim out :
+  0 < icap c -> Inv c s -> in_era k rxt -> in_era k (rxt + icap c + 1) -> in_era k now ->
+  handle c s cid q rxt now victim = Some out ->
+  Inv c (t_state (update_tx (o_state out) cid (o_rxt out) (o_txt out))) /\
+  forall it, find_item cid (items (t_state (update_tx (o_state out) cid (o_rxt out) (o_txt out)))) = Some it ->
+    forall e, In e (it_ents it) -> e_rx e <> to64 (o_rxt out).
+Proof.
+  intros Hi HI E1 E2 E3 Hh.
+  pose proof (handle_inv k c Hi s cid q rxt now victim out HI E1 E2 E3 Hh) as HI1.
+  assert (E1' : in_era k (rxt + 1)) by (apply (in_era_convex k rxt (rxt + icap c + 1)); auto; lia).
+  assert (Hfacts : o_rxt out < o_txt out /\ in_era k (o_rxt out) /\ in_era k (o_txt out) /\
+            (find_item cid (items (o_state out)) = None \/
+             exists it1, find_item cid (items (o_state out)) = Some it1 /\
+                         In {| e_rx := to64 (o_rxt out); e_tx := to64 (o_txt out) |} (it_ents it1))).
+  { destruct (find_item cid (items s)) as [it|] eqn:Hfind.
+    - destruct (find_item_In _ _ _ Hfind) as [Hin Hkey].
+      assert (Hok : item_ok c it). { destruct HI as [_ [_ [Hall _]]]. rewrite Forall_forall in Hall. apply Hall. exact Hin. }
+      destruct (handle_existing_spec k c Hi s cid q rxt now victim it Hfind Hok E1 E2 E3)
+        as [out' [it' [hq' [Hh' [Hst [_ [_ [_ [Hlt [Er [Et [_ [_ [Hk' [_ [_ [_ [HIn _]]]]]]]]]]]]]]]]]].
+      assert (out' = out) by congruence. subst out'.
+      split; [exact Hlt|]. split; [exact Er|]. split; [exact Et|]. right. exists it'. split; [|exact HIn].
+      rewrite Hst. cbn [items]. rewrite <- Hk'. apply find_replace_item. rewrite Hk', <- Hkey. apply in_map. exact Hin.
+    - destruct (handle_new_spec k c s cid q rxt now victim out Hfind E1 E1' E3 Hh) as [Hr [Hlt [Et [_ [_ Hcases]]]]].
+      rewrite Hr. split; [exact Hlt|]. split; [exact E1|]. split; [exact Et|].
+      destruct Hcases as [[_ [_ [-> _]]]|[[_ [_ [_ ->]]]|[_ [_ [_ [_ ->]]]]]].
+      + left. exact Hfind.
+      + right. exists (new_item cid (to64 rxt) (to64 (o_txt out))). cbn [items find_item new_item it_key it_ents]. rewrite Z.eqb_refl.
+        split; [reflexivity|left; reflexivity].
+      + right. exists (new_item cid (to64 rxt) (to64 (o_txt out))). cbn [items find_item new_item it_key it_ents]. rewrite Z.eqb_refl.
+        split; [reflexivity|left; reflexivity]. }
+  destruct Hfacts as [Hlt [Er [Et Hrec]]].
+  assert (Er1 : in_era k (o_rxt out + 1)) by (apply (in_era_convex k (o_rxt out) (o_txt out)); auto; lia).
+  destruct (update_tx_spec k c (o_state out) cid (o_rxt out) (o_txt out) HI1 Er Er1 Et) as [HI2 [_ [Hsame [_ Hclause]]]].
+  split; [exact HI2|].
+  unfold tx_kernel_clause in Hclause. cbv zeta in Hclause. rewrite (Hsame Hlt) in Hclause.
+  destruct Hrec as [Hnone|[it1 [Hf1 Hin1]]].
+  - rewrite Hnone in Hclause. rewrite Hclause. intros it Hf. congruence.
+  - rewrite Hf1 in Hclause. destruct Hclause as [_ H2].
+    destruct (H2 _ Hin1 eq_refl) as [_ Hdrop]. destruct (Hdrop eq_refl) as [_ Hrest].
+    intros it Hf e He. destruct (Hrest it Hf) as [Hall _]. apply (Hall e He).
+Qed.
